@@ -174,3 +174,125 @@ Example C15_evicts_least_recently_used_example :
   last_use_time tr (snd (run true cfg tr)) 1 None = Some 9.
 Proof. cbv zeta. split; [cbn; lia|]. vm_compute. repeat split; try reflexivity; discriminate. Qed.
 Print Assumptions C15_evicts_least_recently_used_example.
+
+(* ------------------------------------------------------------------------------------------ *)
+(* The handler-level half of C15 (Model/Handler.v, Proofs/HandlerB_Expiry.v): "A session that has
+   not been used for longer than the configured session timeout is never used again to encrypt or
+   accept a message: the next exchange with that peer goes through a fresh handshake.  The number of
+   sessions held never exceeds the configured capacity; when it is reached the least recently used
+   session is the one dropped."
+
+   In the handler model every session carries the instant of its last use ([s_used]); the reading of
+   the clock during a handler call is [cfg_clock] (set by [step] to the time of the step).  Every
+   function of the handler obtains a session only through [sess_get] (= LruTimeCache::get_mut, to
+   which get delegates); the correspondence run (hnd --focus c15x, paused clock) compares the real
+   handler with this model step by step on histories with short session timeouts. *)
+From Discv5V Require Import Model.Handler Proofs.HandlerB_Base Proofs.HandlerB_Session Proofs.HandlerB_Step
+  Proofs.HandlerB_Examples Proofs.HandlerB_Expiry.
+Local Open Scope N_scope.
+
+(* what a lookup returns was used within the timeout, and is stamped with the current time ... *)
+Theorem C15_handler_lookup_never_stale :
+  forall c h na h' s, sess_get c h na = (h', Some s) ->
+  exists s0, alist_get na (sessions h) = Some s0 /\
+    cfg_clock c <= s_used s0 + cfg_session_ttl c /\
+    s = touch s0 (cfg_clock c) /\ s_used s = cfg_clock c /\
+    h' = set_sessions h (alist_remove na (sessions h) ++ [(na, s)]).
+Proof. exact sess_get_never_stale. Qed.
+Print Assumptions C15_handler_lookup_never_stale.
+
+(* ... and a session idle for longer than the timeout is not found and is gone afterwards *)
+Theorem C15_handler_expired_session_is_gone :
+  forall c h na s0, alist_get na (sessions h) = Some s0 -> s_used s0 + cfg_session_ttl c < cfg_clock c ->
+  sess_get c h na = (sess_remove h na, None) /\
+  (SessUniq h -> alist_get na (sessions (sess_remove h na)) = None).
+Proof. exact sess_get_expired_gone. Qed.
+Print Assumptions C15_handler_expired_session_is_gone.
+
+(* "never used again to accept a message": a message packet from a peer whose session has been idle
+   for longer than the timeout delivers nothing that is attributed to anybody - the step only asks
+   the application who that is (the peer must complete a fresh handshake) - and the session is gone *)
+Theorem C15_expired_session_accepts_nothing :
+  forall c h from src n aad ct now d s0 o,
+  alist_get (src, from) (sessions (hs (tick c h now d))) = Some s0 -> s_used s0 + cfg_session_ttl c < now ->
+  In o (snd (step c h (EvInbound from (PMsg src n aad ct)) now d)) ->
+  ~ attributing o /\
+  (SessUniq h -> alist_get (src, from) (sessions (fst (step c h (EvInbound from (PMsg src n aad ct)) now d))) = None).
+Proof. exact step_message_expired_delivers_nothing. Qed.
+Print Assumptions C15_expired_session_accepts_nothing.
+
+Theorem C15_expired_session_message_step :
+  forall c h from src n aad ct now d s0,
+  alist_get (src, from) (sessions (hs (tick c h now d))) = Some s0 -> s_used s0 + cfg_session_ttl c < now ->
+  step c h (EvInbound from (PMsg src n aad ct)) now d =
+  (sess_remove (hs (tick c h now d)) (src, from), outs (tick c h now d) ++ [OEvent (HWhoAreYou (src, from) n)]).
+Proof. exact step_message_expired. Qed.
+Print Assumptions C15_expired_session_message_step.
+
+(* "never used again to encrypt": a request to such a peer is queued (a challenge is outstanding) or
+   goes out as a random packet - the opening of a fresh handshake - never as a ciphertext; a response
+   to it is dropped; the session is gone *)
+Theorem C15_expired_session_encrypts_no_request :
+  forall c h ct rid body now d s0,
+  let na := c_naddr ct in
+  let s0' := tick c h now d in
+  SessUniq h -> alist_get na (sessions (hs s0')) = Some s0 -> s_used s0 + cfg_session_ttl c < now ->
+  existsb (N.eqb (c_addr ct)) (cfg_listen c) = false ->
+  let res := step c h (EvRequest ct rid body) now d in
+  (snd res = outs s0' \/
+   exists n aad, snd res = outs s0' ++ [OWire na (PMsg (cfg_local c) n aad (CJunk aad))]) /\
+  (has_challenge (hs s0') na = false -> alist_get na (sessions (fst res)) = None).
+Proof. exact step_request_expired. Qed.
+Print Assumptions C15_expired_session_encrypts_no_request.
+
+Theorem C15_expired_session_encrypts_no_response :
+  forall c h na rid rb now d s0,
+  alist_get na (sessions (hs (tick c h now d))) = Some s0 -> s_used s0 + cfg_session_ttl c < now ->
+  step c h (EvResponse na rid rb) now d = (sess_remove (hs (tick c h now d)) na, outs (tick c h now d)).
+Proof. exact step_response_expired. Qed.
+Print Assumptions C15_expired_session_encrypts_no_response.
+
+(* "The number of sessions held never exceeds the configured capacity": every reachable state, every
+   capacity (with capacity 0 a new session is dropped at once) *)
+Theorem C15_handler_capacity :
+  forall c evs, (length (sessions (fst (run c init_state evs))) <= cfg_capacity c)%nat.
+Proof. exact run_capacity. Qed.
+Print Assumptions C15_handler_capacity.
+
+(* "the least recently used session is the one dropped": the cache list of every reachable state is
+   ordered by the instants of last use (front = least recently used, which is what sess_insert drops
+   when the capacity is exceeded and what remove_expired_sessions purges first), when the step times
+   do not decrease.  Without a clock grid; with a grid (the harness) under [steps_complete]: the step
+   times lie on the grid and no step leaves an overdue timer behind. *)
+Theorem C15_handler_cache_ordered_by_last_use :
+  forall c evs l1 x l2, cfg_grid c = 0 -> times_nondecreasing 0 evs ->
+  sessions (fst (run c init_state evs)) = l1 ++ x :: l2 ->
+  s_used (snd x) <= last_time 0 evs /\ forall y, In y l2 -> s_used (snd x) <= s_used (snd y).
+Proof. exact run_lru_sorted. Qed.
+Print Assumptions C15_handler_cache_ordered_by_last_use.
+
+Theorem C15_handler_cache_ordered_by_last_use_grid :
+  forall c evs, times_nondecreasing 0 evs -> steps_complete c init_state evs ->
+  lru_ord (last_time 0 evs) (sessions (fst (run c init_state evs))).
+Proof. exact run_lru_order_grid. Qed.
+Print Assumptions C15_handler_cache_ordered_by_last_use_grid.
+
+(* the hypotheses are satisfiable, and the behaviour is the intended one: with a session timeout of
+   100, a request at time 100 (last use 50... within the timeout) is encrypted under the session; the
+   next request at time 300 goes out as a random packet and the session is gone; a message under the
+   session's key is delivered at 150 and answered with a who-are-you at 300 *)
+Example C15_handler_expiry_example :
+  (snd (step ex_ttl (fst (run ex_ttl init_state evs_in)) (EvRequest ct7 30 0) 100 (dk [(0, 78, 54, 0)])) =
+   [OWire (7, 100) (PMsg 1 (2, 78) 54 (CEnc (mk_key 3 1 5 7 1 true) (2, 78) (MReq 30 0) 54))]) /\
+  (snd (step ex_ttl h_live (EvRequest ct7 31 0) 300 (dk [(8, 79, 55, 0)])) =
+   [OWire (7, 100) (PMsg 1 (8, 79) 55 (CJunk 55))]) /\
+  sessions (fst (step ex_ttl h_live (EvRequest ct7 31 0) 300 (dk [(8, 79, 55, 0)]))) = [] /\
+  (SessUniq h_live /\
+   exists s0, alist_get (7, 100) (sessions (hs (tick ex_ttl h_live 300 (dk [(8, 79, 55, 0)])))) = Some s0 /\
+              s_used s0 + cfg_session_ttl ex_ttl < 300).
+Proof.
+  split; [exact (proj1 live_session_is_used)|].
+  destruct expired_session_is_not_used as [E1 E2].
+  split; [rewrite E1; reflexivity|]. split; [rewrite E1; exact E2|]. exact expired_step_hypotheses.
+Qed.
+Print Assumptions C15_handler_expiry_example.
